@@ -127,6 +127,12 @@ func zzH_C06_filters() {
 			opts = append(opts, event.Service(es.svc))
 		default:
 		}
+		switch zzLen(0, 2) { // the event may already carry a "token" key (relayed / client-controlled data)
+		case 1:
+			opts = append(opts, event.Custom("token", "forged"))
+		case 2:
+			opts = append(opts, event.Custom("token", 7))
+		}
 		opts = append(opts, event.Custom("seq", i))
 		sent = append(sent, es)
 		bus.Send(event.New(opts...))
